@@ -7,7 +7,7 @@ import hypothesis
 from hypothesis import strategies as st
 from hypothesis.stateful import RuleBasedStateMachine, rule, initialize, precondition, run_state_machine_as_test
 
-from vlib.harness import hyp_settings, Violation, quiet
+from vlib.harness import hyp_settings, Violation, quiet, collecting
 
 PROPERTY = "C11"
 RULE = ("(a) rule-based state machine over a pool of (real Food, label/value model) pairs: construction (scalar / series, labels from a "
@@ -38,10 +38,16 @@ TARGETS = {"in_units_billions_fed": 2, "in_units_percent_fed": 1, "in_units_kcal
 EACH, PER = " each month", " per month"
 
 
-def set_flags(fat, protein, pop=7.8e9):
+# nutrition profiles a process may switch between (the two shipped ones share the energy need and differ in fat / protein)
+PROFILES = [(2100.0, 47.0, 51.0), (2100.0, 61.7, 59.5), (2100.0, 30.0, 70.0), (1800.0, 47.0, 51.0)]
+
+
+def set_flags(fat, protein, pop=7.8e9, profile=0):
     from src.food_system.food import Food
-    Food.conversions.set_nutrition_requirements(kcals_daily=2100, fat_daily=47, protein_daily=51, include_fat=fat,
+    k, f, p = PROFILES[profile]
+    Food.conversions.set_nutrition_requirements(kcals_daily=k, fat_daily=f, protein_daily=p, include_fat=fat,
                                                 include_protein=protein, population=pop)
+    return dict(pop=pop, kcals=k, fat=f, protein=p)
 
 
 class M:
@@ -297,16 +303,20 @@ def make_machine(ctx):
             self.run(op, fn, exp, [(a, ma)])
 
         @precondition(lambda self: any(BASES.index(m.base) in CONVERTIBLE for _, m in self.pool if m.base in BASES))
-        @rule(i=st.integers(0, 99), tgt=st.sampled_from(sorted(TARGETS)), fat=st.booleans(), protein=st.booleans())
-        def convert(self, i, tgt, fat, protein):
+        @rule(i=st.integers(0, 99), tgt=st.sampled_from(sorted(TARGETS)), fat=st.booleans(), protein=st.booleans(),
+              profile=st.sampled_from([0, 0, 1, 2, 3]), big=st.booleans())
+        def convert(self, i, tgt, fat, protein, profile=0, big=True):
             target = tgt
-            self.steps.append(["convert", i, target, fat, protein])
+            self.steps.append(["convert", i, target, fat, protein, profile, big])
             cands = [(f, m) for f, m in self.pool if m.base in BASES and BASES.index(m.base) in CONVERTIBLE]
             a, ma = cands[i % len(cands)]
-            set_flags(fat, protein)
+            # the process-wide settings are re-established before the conversion, sometimes with another nutrition profile or population
+            sett = set_flags(fat, protein, pop=7.8e9 if big else 1.0e7, profile=profile)
+            if profile or not big:
+                ctx.event("convert_after_settings_change")
             from vlib.ref import ref_units
             tb = BASES[TARGETS[target]]
-            conv = [ref_units.factor(fb, tbk, nut) for fb, tbk, nut in zip(ma.base, tb, ("kcals", "fat", "protein"))]
+            conv = [ref_units.factor(fb, tbk, nut, sett) for fb, tbk, nut in zip(ma.base, tb, ("kcals", "fat", "protein"))]
             self.run(target, lambda: getattr(a, target)(), M(tb, ma.form, [x * c for x, c in zip(ma.vals, conv)]), [(a, ma)])
 
         def teardown(self):
@@ -356,10 +366,8 @@ def shard(ctx):
     thorough = ctx.tier == "thorough"
     Mc = make_machine(ctx)
     seed = (ctx.seed * 1000 + ctx.shard) * 11 + 5
-    try:
+    with collecting(ctx):
         run_state_machine_as_test(hypothesis.seed(seed)(Mc), settings=hyp_settings(6000 if thorough else 150, shrink=True, stateful_steps=30))
-    except Violation as v:
-        ctx.record_violation(ctx._last_violation or v)
     grid = [-1.0, 0.0, 1.0, 2.0] if thorough else [-1.0, 0.0, 1.0]
     triples = list(itertools.product(grid, repeat=3))
     jobs = []
